@@ -625,7 +625,7 @@ Print Assumptions C18_lex_number_case_blind.
 
 (* THE LEXER HALF WITH DIGITS AND THE APOSTROPHE, for ANY Unicode tables.  Alnum u s: every character is a word
    character (not an ASCII digit), an ASCII digit the tables call numeric, a blank, a punctuation / quote character
-   other than  @ : [ ‘ ＇  — PERIOD, STRAIGHT APOSTROPHE and (phase 6) the CURLY APOSTROPHE U+2019 ALLOWED —, or a character no sub-lexer claims; and at no
+   other than  @ [ ‘ ＇  — PERIOD, STRAIGHT APOSTROPHE, (phase 6) the CURLY APOSTROPHE U+2019 and (phase 7) the COLON ALLOWED, the substring :// excluded at every position —, or a character no sub-lexer claims; and at no
    position that follows the start of the text or a character that is NOT a word character (look-behind; the lexer never
    starts a token at an ASCII letter or digit right after a word character: alnum_lex_binv inside the proof) one of
      Q_plural  [A-Za-z0-9][sS] + LA, first character a DIGIT, or lex_hostname_token answers from there (= FC18c)
@@ -1056,4 +1056,44 @@ Proof.
   split; [apply alnum_stable_of_closed; [exact ex_alnum_case_closed|vm_compute; reflexivity]|].
   eexists. split; [vm_compute; reflexivity|]. split; [intros H; vm_compute in H; discriminate|].
   split; [vm_compute; reflexivity|]. split; vm_compute; reflexivity.
+Qed.
+
+(* ---------- phase 7: the colon inside the class ---------- *)
+(* `:` is a character of the class now (bad3 = @ [ ‘ ＇); excluded, at every position, is the substring `://`
+   (q_url, a conjunct of ctx_ok3; invariant under Rl and Ra since `:` and `/` are punctuation characters).
+   On such a text lex_url declines at EVERY cursor position the parse loop reaches: the characters after the first
+   colon of the remaining text are not `//`, which is the first thing lex_ip_schemepart asks for.  The scheme test
+   (valid_scheme_char: is_ascii_alphabetic / is_ascii_digit / . - +) is never the reason, so nothing case-dependent is
+   used.  All theorems about the class (C18_lex_alnum_stable, C18_lex_curly_stable, C18_lex_alnum4_stable,
+   C18_alnum_closed_rl4, C18_str_relex_alnum, C18_str_idempotent_alnum, C18_str_title_case_alnum) now speak about this
+   wider class: their statements are unchanged, alnum_text / Alnum / St mean more. *)
+Theorem C18_alnum_url_declines : forall u prev (s : list N), St u prev s -> lex_url u s = None.
+Proof. exact url_none3. Qed.
+Check C18_alnum_url_declines : forall u prev (s : list N), St u prev s -> lex_url u s = None.
+Print Assumptions C18_alnum_url_declines.
+
+(* "re: the wordpress 10:30" *)
+Definition colon_s : text :=
+  [114; 101; 58; 32; 116; 104; 101; 32; 119; 111; 114; 100; 112; 114; 101; 115; 115; 32; 49; 48; 58; 51; 48]%N.
+(* non-vacuity: the colon is a character of the class, the text is in the stable class (St holds at its start, so the
+   theorem above applies), title-casing changes it, the result is a fixed point with the same document tokens and in
+   the class; `a://b` (a Url token for the lexer) and `x ://` are outside, `a:/b` and `a:b` inside *)
+Example C18_colon_nonvacuous :
+  char3 ascii_uni 58 = true /\ St ascii_uni None colon_s /\
+  alnum_stable_text ascii_uni ex_lower ex_upper colon_s /\
+  (exists out,
+    title_case_str ascii_uni ex_lower ex_upper ex_islower ex_canon ex_meta colon_s = Ok out /\ out <> colon_s /\
+    title_case_str ascii_uni ex_lower ex_upper ex_islower ex_canon ex_meta out = Ok out /\
+    document_tokens ascii_uni ex_meta out = document_tokens ascii_uni ex_meta colon_s /\
+    alnum_text ascii_uni out = true) /\
+  alnum_text ascii_uni [97; 58; 47; 47; 98]%N = false /\ alnum_text ascii_uni [120; 32; 58; 47; 47]%N = false /\
+  lex_url ascii_uni [97; 58; 47; 47; 98]%N = Some (5, Lexer.KUrl) /\
+  alnum_text ascii_uni [97; 58; 47; 98]%N = true /\ alnum_text ascii_uni [97; 58; 98]%N = true.
+Proof.
+  split; [vm_compute; reflexivity|]. split; [apply Alnum_St, alnum_text_Alnum; vm_compute; reflexivity|].
+  split; [apply alnum_stable_of_closed; [exact ex_alnum_case_closed|vm_compute; reflexivity]|].
+  split.
+  { eexists. split; [vm_compute; reflexivity|]. split; [intros H; vm_compute in H; discriminate|].
+    split; [vm_compute; reflexivity|]. split; vm_compute; reflexivity. }
+  repeat split; vm_compute; reflexivity.
 Qed.
